@@ -475,7 +475,9 @@ func checkC12(c *Ctx, n int) {
 					}
 				}
 				// an explicitly empty slice/map whose default tag is non-empty cannot be expressed by the format
-				if (strings.HasPrefix(va, "L[") && va == "L[" || va == "M[") && len(refs[ref].Default) > 0 {
+				// (empty and non-nil, or nil: an option with an optional argument and no optional-value that
+				// occurs bare is emptied to nil)
+				if (va == "L[" || va == "M[" || va == "Lnil" || va == "Mnil") && len(refs[ref].Default) > 0 {
 					key = "C12:explicitly-empty-collection-with-nonempty-default"
 				}
 				if clash {
